@@ -357,6 +357,32 @@ theorem layering_exact_default (us : List (String × Cfg ℝ)) (hw : WF (.node u
   simp only [calculateDerivedFile, h1]
   exact unknown_keys_inert Gen.defaultCfg (.node us) hw default_read_paths_known
 
+/-- **the two run-level theorems are not vacuous**: a concrete custom file over the GENERATED default tree - it
+overrides `solution.cp_s`, carries the unknown key `bogus` next to it and an unknown mapping `extra` at depth 1 -
+satisfies both remaining hypotheses (`WF`: distinct keys per mapping; `Sub (prune …)`: once the unknown names are
+removed nothing is nested in a wrong place); hence its load equals the load of the file without `bogus` and `extra`,
+which is `calculateDerived` of the default tree with `solution.cp_s` replaced. -/
+theorem default_instance_unknown_key :
+    let us : List (String × Cfg ℝ) :=
+      [("solution", .node [("cp_s", .leaf (.num 1300)), ("bogus", .leaf (.num 1))]),
+       ("extra", .node [("x", .leaf (.str "y"))])]
+    WF (.node us) ∧ Sub (prune (allKeys (Gen.defaultCfg : Cfg ℝ)) (.node us)) Gen.defaultCfg ∧
+    prune (allKeys (Gen.defaultCfg : Cfg ℝ)) (.node us) = .node [("solution", .node [("cp_s", .leaf (.num 1300))])] ∧
+    calculateDerivedFile Gen.defaultCfg (some (.node us)) =
+      calculateDerivedFile Gen.defaultCfg (some (.node [("solution", .node [("cp_s", .leaf (.num 1300))])])) := by
+  intro us
+  have hw : WF (.node us) := by simp [us, WF, WFL, find?]
+  have hp : prune (allKeys (Gen.defaultCfg : Cfg ℝ)) (.node us)
+      = .node [("solution", .node [("cp_s", .leaf (.num 1300))])] := by
+    simp [us, Gen.defaultCfg, prune, pruneL, allKeys, allKeysL, keys]
+  have hs : Sub (prune (allKeys (Gen.defaultCfg : Cfg ℝ)) (.node us)) Gen.defaultCfg := by
+    rw [hp]
+    simp [Gen.defaultCfg, Cfg.Sub, Cfg.SubL, find?]
+  refine ⟨hw, hs, hp, ?_⟩
+  have := unknown_keys_inert_default us hw hs
+  rw [hp] at this
+  exact this
+
 def isOkB {ε β} : Except ε β → Bool
   | .ok _ => true
   | .error _ => false
